@@ -303,8 +303,12 @@ func (s *seatRun) apply(op SeatOp) {
 	s.justArmed = false
 	if op.Kind == 'Y' {
 		s.watchSeat = -1
-		s.touched = s.touched[:0] // the shadows were rolled back with the state
-		s.rep.Inc("class_restore_or_reset")
+		if s.kept != nil {
+			s.touched = s.touched[:0] // the shadows were rolled back with the state
+			s.rep.Inc("class_restore_or_reset")
+		} else {
+			s.touched = append(s.touched, -1)
+		}
 	} else if op.Kind == 'X' || op.Kind == 'Z' {
 		s.watchSeat = -1
 		s.touched = append(s.touched, -1)
@@ -544,6 +548,10 @@ func (s *seatRun) onNext(pre, post []seatView, prevD int, err error) {
 		}
 	}
 	if err != nil {
+		// a refused move may have moved the button or opened seats on its way: no positions were assigned,
+		// so nothing is known about closed seats until the next successful move
+		s.emptyAtAssign, s.closedAfterAssign = nil, nil
+		s.watchSeat = -1
 		return
 	}
 	if s.props["C08"] || s.props["C17"] {
